@@ -30,11 +30,14 @@ POOL = [
     S("type X = int\n", py_version=(3, 8)), S("type X = int\n"), S("a + b", mode="eval"), S("a +", mode="eval"), dict(kind="tokens", src="f'{a' + $(\n"),
     F("x = (\n"), F("y = 1\n"), F("z = = 2\n"), F("a = 1\nb = 2\nc = = 3\nd = 4\n"), F("def f():\n    return $(ls)\n"),
     S("a = [[[[1]]]] + [[[[2]]]]\n"), S("class C:\n    def m(self):\n        return `*.py`\n"), S("if a:\n\tb\n        c\n"), S("$X = ${'Y'} = 1\n"), S("f'{x}' 'y'\n"),
+    S("a = f\"c\\td{x}\"\n"), S("b = rf\"c\\td{x}\"\n"), S("c = 'c\\td'\n"), S("d = r'c\\td' b'c\\td'\n"), S("u'a' 'b'\n"),
+    S("x = " + "(" * 40 + "1" + ")" * 40 + "\n"), S("x = = 1\n", mode="eval"), S("type X = int\n", py_version=(3, 13), verbose=True),
     S("lambda: (yield)\n"), S("match x:\n    case [1, *r]:\n        pass\n"), S("del ()\n"), S("1 if 2 else\n"), S("print(f!(x), ![ls], $(pwd))\n"),
 ]
 SCHED_PAIRS = [("x = 1\n", "y = f'{a}'\n"), ("f!(a, b)\n", "g(c, d)\n"), ("s = '''a\nb'''\n", "t = 2\n"), ("with! c:\n    raw\n", "z = $(ls)\n"),
-               ("x = = 1\n", "y = 2\n"), ("p = pf'/a{b}'\n", "q = 'c'\n")]
-TIERS = {"quick": dict(h3=2500, sched=2, threads=300), "thorough": dict(h3=10**9, sched=len(SCHED_PAIRS), threads=4000)}
+               ("x = = 1\n", "y = 2\n"), ("p = pf'/a{b}'\n", "q = 'c'\n"), ("y = 2\n", "x = " + "(" * 40 + "1" + ")" * 40 + "\n"),
+               ("a = f\"c\\td{x}\"\n", "b = rf\"c\\td{x}\"\n")]
+TIERS = {"quick": dict(h3=2500, sched=8, threads=300), "thorough": dict(h3=10**9, sched=len(SCHED_PAIRS), threads=4000)}
 
 
 def gen(run: Run, mode: str, name: str, **consts) -> list[dict]:
